@@ -356,6 +356,8 @@ pub fn run(desc: &Value, ctx: &Ctx) -> CaseOut {
                         if let Ok(cwd) = std::env::current_dir() {
                             if std::env::set_current_dir(&adir).is_ok() {
                                 judge!("extras-by-relative-path", Path::new("./c.jbk"), &case, &created);
+                                // and by its bare file name (the path has no directory component at all)
+                                judge!("extras-by-bare-file-name", Path::new("c.jbk"), &case, &created);
                                 let _ = std::env::set_current_dir(cwd);
                             }
                         }
